@@ -3,11 +3,13 @@ from __future__ import annotations
 
 import ast
 
-from sa import source
-from sa.cfg import cfg_of, guards
-from sa.classes import ActorModel, FAILURE_MESSAGES, handler_guard, is_failure_send, is_logging_call, no_retry_is_sound
+from sa import pat, source
+from sa.cfg import cfg_of, guards, holds
+from sa.classes import ActorModel, FAILURE_MESSAGES, handler_guard, is_failure_send, is_logging_call, is_logging_stmt, no_retry_is_sound
 from sa.source import AnchorMissing, dotted, is_self_attr, last_attr, loc, params_of, short, u, walk_body
+from sa.minieval import CannotEval, Record, ev as _ev
 from sa.sym import UnknownAtom, truth_table
+from sa.tables import decide as _decide, Unsupported as _Uns
 
 RESULT_CALLS = {"calculate_results", "add_results", "store_results", "summarize"}
 
@@ -38,8 +40,31 @@ def payload_type(model, call: ast.Call, handler_msg: dict):
     return None
 
 
+def _log_noise(c: ast.AST) -> bool:
+    """A logging call, or the `logging.getLogger(...)` call that is the receiver of one (its arguments are NOT exempt)."""
+    if is_logging_call(c):
+        return True
+    p = source.parent(c)
+    return isinstance(c, ast.Call) and dotted(c.func) == "logging.getLogger" and isinstance(p, ast.Attribute) and p.value is c and is_logging_call(source.parent(p))
+
+
+def _created_actor_locals(func) -> set:
+    """Locals of func whose every binding is the result of a createActor(...) call (an actor address by construction)."""
+    good, bad = set(), set()
+    if func is None:
+        return good
+    for n in walk_body(func):
+        if isinstance(n, ast.Name) and isinstance(n.ctx, (ast.Store, ast.Del)):
+            p = source.parent(n)
+            if isinstance(p, ast.Assign) and len(p.targets) == 1 and p.targets[0] is n and isinstance(p.value, ast.Call) and last_attr(p.value.func) == "createActor":
+                good.add(n.id)
+            else:
+                bad.add(n.id)
+    return good - bad
+
+
 def send_target_ok(call: ast.Call, addr_attrs: set, func) -> bool:
-    """Target of a send sink is an address attribute, the sender parameter, or getattr(msg, 'reply_to', sender)."""
+    """Target of a send sink is an address attribute, the sender parameter, a local bound only to createActor(...) results, or getattr(msg, 'reply_to', sender)."""
     if not call.args:
         return False
     t = call.args[0]
@@ -47,11 +72,27 @@ def send_target_ok(call: ast.Call, addr_attrs: set, func) -> bool:
     sender = ps[2] if len(ps) >= 3 else None
     if is_self_attr(t) and t.attr in addr_attrs:
         return True
-    if isinstance(t, ast.Name) and (t.id == sender or t.id in ("sender", "benchmark_actor")):
+    if isinstance(t, ast.Name) and (t.id == sender or t.id in _created_actor_locals(func)):
         return True
+    if isinstance(t, ast.Name) and t.id == "sender" and any(isinstance(f_, source.FUNC_TYPES) and "sender" in params_of(f_) for f_ in source.ancestors(call)):
+        return True  # a parameter named sender (of the function or of the handler a nested function closes over)
     if isinstance(t, ast.Call) and dotted(t.func) == "getattr" and len(t.args) == 3:
         return source.is_const(t.args[1], "reply_to") and isinstance(t.args[2], ast.Name)
     return False
+
+
+def _truthy_edge(test: ast.AST, var: str):
+    """CFG edge label ('true' / 'false') an `if test:` takes when local `var` holds an exception object, provided the test decides on var alone
+    (the other value, None, takes the other edge); None if the test is not such a decision."""
+    def val(v):
+        try:
+            return bool(_ev(test, {var: v}))
+        except Exception:  # CannotEval, or a Python error on the stand-in value: not a decision this evaluator understands
+            return None
+    a, b = val(Record(exception=True)), val(None)
+    if a is None or b is None or a == b:
+        return None
+    return "true" if a else "false"
 
 
 def run(chk):
@@ -104,7 +145,7 @@ def run(chk):
                 # class's only wakeupAfter(payload=...) uses that constant
                 consts = set()
                 for n in walk_body(f):
-                    if isinstance(n, ast.Compare) and len(n.ops) == 1 and isinstance(n.ops[0], ast.Eq):
+                    if isinstance(n, ast.Compare) and len(n.ops) == 1 and isinstance(n.ops[0], (ast.Eq, ast.NotEq)):
                         for side in (n.left, n.comparators[0]):
                             if isinstance(side, ast.Attribute) and dotted(side) and dotted(side).startswith(a.name + "."):
                                 consts.add(dotted(side))
@@ -113,8 +154,13 @@ def run(chk):
                     for c in source.calls_in(m, attr="wakeupAfter"):
                         pv = source.arg_of(c, 1, "payload")
                         payloads.add(dotted(pv) if pv is not None else "<none>")
-                raises_elsewhere = [n for n in walk_body(f) if isinstance(n, ast.Raise) and not any(not pol for _, pol in guards(n))]
-                other_calls = [n for n in walk_body(f) if isinstance(n, ast.Call) and not is_logging_call(n)
+                # a raise is harmless only where the payload is known to differ from every constant the class schedules (guard facts: polarity / orientation / arm order do not matter)
+                msgp = params_of(f)[1] if len(params_of(f)) > 1 else "msg"
+                def differs(n, cs):
+                    return [c_ for c_ in cs if c_ != "<none>" and pat.guarded(n, f"{msgp}.payload != {c_}") is not None]
+
+                raises_elsewhere = [n for n in walk_body(f) if isinstance(n, ast.Raise) and not (differs(n, consts) and len(differs(n, payloads)) == len(payloads))]
+                other_calls = [n for n in walk_body(f) if isinstance(n, ast.Call) and not _log_noise(n)
                                and not (isinstance(n.func, ast.Attribute) and is_self_attr(n.func.value) is False and isinstance(n.func.value, ast.Name) and n.func.value.id == "self")
                                and last_attr(n.func) not in ("RallyAssertionError",)]
                 ok = bool(consts) and payloads <= consts and not raises_elsewhere
@@ -240,7 +286,6 @@ def run(chk):
 
     # cleanup that runs BEFORE the forwarding send must not be able to block it for good: the driver actor closes the driver (metrics store) first; a failing close
     # raises out of the handler, the actor framework re-delivers the message, and the second delivery must get past the cleanup
-    from sa import pat
     met_m = repo.module("esrally/metrics.py")
     chk.use(met_m)
     DA = model.actor("DriverActor")
@@ -250,7 +295,7 @@ def run(chk):
             continue
         g = cfg_of(f)
         fwd = [c for c in source.calls_in(f, attr="send")]
-        pre = [c for c in walk_body(f) if isinstance(c, ast.Call) and not is_logging_call(c) and last_attr(c.func) not in ("send", "format", "str", "BenchmarkFailure", "BenchmarkCancelled")
+        pre = [c for c in walk_body(f) if isinstance(c, ast.Call) and not _log_noise(c) and last_attr(c.func) not in ("send", "format", "str", "BenchmarkFailure", "BenchmarkCancelled")
                and any(g.path_exists(g.node_of(c), g.node_of(s_)) and g.node_of(c) is not g.node_of(s_) for s_ in fwd)]
         for c in pre:
             ok = u(c.func) == "self.driver.close"
@@ -264,7 +309,7 @@ def run(chk):
     chk.ob("O9.3", "Driver.close closes the metrics store only while it is marked open", ok, sc[0] if sc else dcl, "")
     gm_ = cfg_of(mcl)
     clr = [n for n in walk_body(mcl) if isinstance(n, ast.Assign) and any(is_self_attr(t, "opened") for t in n.targets) and source.is_const(n.value, False)]
-    fall = [c for c in walk_body(mcl) if isinstance(c, ast.Call) and not is_logging_call(c)]
+    fall = [c for c in walk_body(mcl) if isinstance(c, ast.Call) and not _log_noise(c)]
     ok = len(clr) >= 1 and all(gm_.dominated_by_nodes(gm_.node_of(c), [gm_.node_of(x) for x in clr]) for c in fall)
     late = [c for c in fall if not (clr and gm_.dominated_by_nodes(gm_.node_of(c), [gm_.node_of(x) for x in clr]))]
     chk.ob("O9.3", "MetricsStore.close marks the store closed before anything in it can fail", ok, late[0] if late else mcl,
@@ -305,7 +350,7 @@ def run(chk):
             exits_ = [c for c in source.calls_in(f, attr="send") if len(c.args) >= 2 and isinstance(c.args[1], ast.Call) and last_attr(c.args[1].func) == "ActorExitRequest"]
             for x in exits_:
                 n_x += 1
-                after = [c for c in walk_body(f) if isinstance(c, ast.Call) and c is not x and not is_logging_call(c) and last_attr(c.func) not in ("send", "ActorExitRequest")
+                after = [c for c in walk_body(f) if isinstance(c, ast.Call) and c is not x and not _log_noise(c) and last_attr(c.func) not in ("send", "ActorExitRequest")
                          and not any(c in list(ast.walk(s_)) for s_ in source.calls_in(f, attr="send"))
                          and g.node_of(c) is not g.node_of(x) and g.path_exists(g.node_of(x), g.node_of(c), edge_ok=g.normal_edge)]
                 chk.ob("O9.2x", f"{a.name}.{hn}: nothing fallible after the exit request to {u(x.args[0])}", not after, after[0] if after else x,
@@ -327,7 +372,7 @@ def run(chk):
         g = cfg_of(f)
         ps = params_of(f)
         sends = [c for c in source.calls_in(f, attr="send") if len(c.args) >= 2 and send_target_ok(c, set(addr[a.name]), f)
-                 and (is_failure_send(c) or (isinstance(c.args[1], ast.Name) and c.args[1].id == ps[1]))]
+                 and (is_failure_send(c) or (isinstance(c.args[1], ast.Name) and len(ps) > 1 and c.args[1].id == ps[1]))]
         nodes = [g.node_of(c) for c in sends]
         ok = bool(nodes) and g.must_pass(g.entry, nodes)
         chk.ob("O9.3p", f"{a.name}.receiveMsg_PoisonMessage", ok, f, f"sends={[short(c, 70) for c in sends]}")
@@ -398,15 +443,15 @@ def run(chk):
                     and isinstance(n.value.func, ast.Attribute) and is_self_attr(n.value.func.value) and n.value.func.value.attr in fut_attrs \
                     and len(n.targets) == 1 and isinstance(n.targets[0], ast.Name):
                 var = n.targets[0].id
-                # the test on the variable
+                # the test on the variable: any `if` that decides on it alone (evaluated for an exception object and for None, so `if e`, `if e is not None`,
+                # `if not e` / `if e is None` with swapped arms are the same decision); the branch taken for an exception must send
                 for t in walk_body(f):
-                    if isinstance(t, ast.If) and ((isinstance(t.test, ast.Name) and t.test.id == var) or
-                                                  (isinstance(t.test, ast.Compare) and isinstance(t.test.left, ast.Name) and t.test.left.id == var
-                                                   and isinstance(t.test.ops[0], ast.IsNot))):
+                    lab = _truthy_edge(t.test, var) if isinstance(t, ast.If) else None
+                    if lab is not None:
                         found = True
                         tn = g.node_of(t)
                         sends = [g.node_of(c) for c in source.calls_in(f, attr="send") if is_failure_send(c) and send_target_ok(c, set(addr[a.name]), f)]
-                        starts = g.edge_targets(tn, "true")
+                        starts = g.edge_targets(tn, lab)
                         ok = bool(sends) and bool(starts) and all(s in sends or g.must_pass(s, sends) for s in starts)
                         chk.ob("O9.5", inst, ok, t, "on a truthy future exception every normal path sends BenchmarkFailure" if ok else
                                "a path from the truthy-exception branch reaches the handler's end without sending BenchmarkFailure")
@@ -453,29 +498,39 @@ def run(chk):
     chk.ob("O9.9", "race(): race control is always told to exit (finally)", ok, fin[0] if fin else race_fn, "")
     Wk = model.actor("Worker")
     exr = Wk.methods.get("receiveMsg_ActorExitRequest")
-    ok = exr is not None and any(isinstance(n, ast.Call) and u(n.func) == "self.cancel.set" and any(pol and "running()" in u(t) for t, pol in guards(n)) for n in walk_body(exr))
+    ok = exr is not None and any(isinstance(n, ast.Call) and u(n.func) == "self.cancel.set" and pat.guarded(n, "E_future.running()") is not None for n in walk_body(exr))
     chk.ob("O9.9", "exit request sets the cancel event while the executor runs", ok, exr if exr is not None else Wk.node, "")
     wkh = Wk.methods.get("receiveMsg_WakeupMessage")
+    if wkh is None:
+        raise AnchorMissing("Worker.receiveMsg_WakeupMessage")
     gk = cfg_of(wkh)
     cs_ = [c for c in source.calls_in(wkh, attr="send") if len(c.args) >= 2 and isinstance(c.args[1], ast.Call) and last_attr(c.args[1].func) == "BenchmarkCancelled"]
     ex_ = [n for n in walk_body(wkh) if isinstance(n, ast.Call) and last_attr(n.func) == "exception"]
-    ok = bool(cs_) and any(pol and u(t) == "self.cancel.is_set()" for t, pol in guards(cs_[0])) and bool(ex_) and not gk.path_exists(gk.node_of(cs_[0]), gk.node_of(ex_[0])) \
-        and any((not pol) and u(t) == "self.cancel.is_set()" for t, pol in guards(ex_[0]))
+    ok = bool(cs_) and holds(cs_[0], "self.cancel.is_set()") and bool(ex_) and not gk.path_exists(gk.node_of(cs_[0]), gk.node_of(ex_[0])) \
+        and holds(ex_[0], "not self.cancel.is_set()")
     chk.ob("O9.9", "worker wake-up reports cancellation before polling the future", ok, cs_[0] if cs_ else wkh, "")
-    first = loops[0].body[0]
-    ok = isinstance(first, ast.If) and u(first.test) == "self.cancel.is_set()" and any(isinstance(x, ast.Break) for x in first.body)
+    # first statement of the loop body that is not logging: an `if` one of whose arms breaks exactly when the cancel event is set (decided on the guard facts of the break)
+    body_ = [s_ for s_ in loops[0].body if not is_logging_stmt(s_)]
+    first = body_[0] if body_ else loops[0]
+    ok = isinstance(first, ast.If) and any(isinstance(x, ast.Break) and [u(f_) for f_ in pat.fact_nodes(x, stop=loops[0])] == ["self.cancel.is_set()"] for x in first.body + first.orelse)
     chk.ob("O9.9", "request loop stops at the next request once cancelled", ok, first, "")
     trkm = repo.module("esrally/track/track.py")
     chk.use(trkm)
     eb = trkm.methods(trkm.cls("Task")).get("error_behavior")
     if eb is None:
         raise AnchorMissing("Task.error_behavior")
-    from sa.tables import decide as _decide, Unsupported as _Uns
+    if len(params_of(eb)) < 2:
+        raise AnchorMissing("Task.error_behavior(self, <default>)")
     dpar = params_of(eb)[1]
     for dflt, ignores in ((True, False), (True, True), (False, False), (False, True)):
-        def atom(n, env):
-            t = u(n)
-            return {f"{dpar} == 'abort'": dflt, "self.ignore_response_error_level != 'non-fatal'": not ignores, "self.ignore_response_error_level == 'non-fatal'": ignores}.get(t)
+        def atom(n, env, dflt=dflt, ignores=ignores):
+            # atoms are evaluated on representative values (any orientation / operator: ==, !=, in (...)), not recognised by their text
+            if isinstance(n, ast.BoolOp) or (isinstance(n, ast.UnaryOp) and isinstance(n.op, ast.Not)):
+                return None
+            try:
+                return bool(_ev(n, {dpar: "abort" if dflt else "continue", "self": Record(ignore_response_error_level="non-fatal" if ignores else None)}))
+            except (CannotEval, TypeError, ValueError):
+                return None
 
         try:
             out = _decide(eb.body, atom, {})
@@ -486,11 +541,19 @@ def run(chk):
         want = "abort" if (dflt and not ignores) else "continue"
         chk.ob("O9.9", f"error behaviour when on-error={'abort' if dflt else 'continue'} and the task {'ignores' if ignores else 'does not ignore'} non-fatal errors", got == want, eb, f"{got}; expected {want}",
                key=f"esrally/track/track.py:Task.error_behavior:{dflt}|{ignores}")
-    adp = drv.methods(drv.cls("AsyncIoAdapter"))["run"]
+    adp = drv.methods(drv.cls("AsyncIoAdapter")).get("run")
+    exi = drv.methods(ex).get("__init__")
+    if adp is None or exi is None:
+        raise AnchorMissing("AsyncIoAdapter.run / AsyncExecutor.__init__")
     exc_ = [n for n in walk_body(adp) if isinstance(n, ast.Call) and last_attr(n.func) == "AsyncExecutor"]
-    ok = bool(exc_) and u(exc_[0].args[-1]) == "task.error_behavior(self.abort_on_error)"
+    # by role: the on_error argument is <t>.error_behavior(self.abort_on_error) where <t> is the very local handed to the executor as its task
+    bound = source.bind_args(exc_[0], exi) if exc_ else {}
+    tk_ = bound.get("task")
+    ok = bool(exc_) and isinstance(tk_, ast.Name) and pat.match(bound.get("on_error"), "V_t.error_behavior(self.abort_on_error)", {"t": tk_.id}) is not None
     chk.ob("O9.9", "each executor gets its task's error behaviour derived from the worker's on-error setting", ok, exc_[0] if exc_ else adp, "")
     wst = Wk.methods.get("receiveMsg_StartWorker")
+    if wst is None:
+        raise AnchorMissing("Worker.receiveMsg_StartWorker")
     ok = any(isinstance(n, ast.Assign) and is_self_attr(n.targets[0], "on_error") and "'on.error'" in u(n.value) for n in walk_body(wst))
     chk.ob("O9.9", "worker reads on-error from the driver configuration", ok, wst, "")
 
@@ -572,28 +635,48 @@ def run(chk):
             chk.ob("O9.7", f"{a.name}.{hname} reaches no success/result construct", not bad, f, f"reaches {bad}" if bad else "")
     # race(): isinstance chain
     g = cfg_of(race_fn)
+
+    def isinst(t):
+        """(class name, polarity) of a test `isinstance(x, C)` / `not isinstance(x, C)`, else None."""
+        pol = True
+        while isinstance(t, ast.UnaryOp) and isinstance(t.op, ast.Not):
+            t, pol = t.operand, not pol
+        if isinstance(t, ast.Call) and dotted(t.func) == "isinstance" and len(t.args) == 2:
+            return last_attr(t.args[1]), pol
+        return None
+
     arms = {}
     for n in walk_body(race_fn):
-        if isinstance(n, ast.If) and isinstance(n.test, ast.Call) and dotted(n.test.func) == "isinstance" and len(n.test.args) == 2:
-            arms[last_attr(n.test.args[1])] = n
+        if isinstance(n, ast.If) and isinst(n.test) is not None:
+            arms[isinst(n.test)[0]] = n
     if "Success" not in arms or "BenchmarkFailure" not in arms:
         raise AnchorMissing("race(): isinstance chain over the reply not found")
     fa = arms["BenchmarkFailure"]
     tn = g.node_of(fa)
-    starts = g.edge_targets(tn, "true")
+    starts = g.edge_targets(tn, "true" if isinst(fa.test)[1] else "false")
     ok = bool(starts) and all(g.exit.id not in g.reachable([s], edge_ok=None) or _only_via_raise(g, s) for s in starts)
     chk.ob("O9.7", "race(): BenchmarkFailure reply raises", ok, fa, "the failure arm raises on every path" if ok else "the failure arm can complete without raising")
-    # default arm: the last elif's orelse
-    last = fa
-    while last.orelse and len(last.orelse) == 1 and isinstance(last.orelse[0], ast.If):
-        last = last.orelse[0]
-    ok = bool(last.orelse) and isinstance(last.orelse[-1], ast.Raise) or (bool(last.orelse) and all(_stmt_raises(s) for s in last.orelse[-1:]))
-    chk.ob("O9.7", "race(): unexpected reply raises", ok, last, "default arm ends in raise" if ok else "default arm does not raise")
+    # default arm: evaluate the reply dispatch for a reply that is an instance of none of the tested classes (arm order / polarity do not matter)
+    top = [n for n in arms.values() if not any(source.parent(n) is m_ and n in m_.orelse for m_ in arms.values())]
+    seq_ = None
+    for fld in ("body", "orelse", "finalbody"):
+        l_ = getattr(source.parent(top[0]), fld, None) or []
+        if all(any(t_ is s_ for s_ in l_) for t_ in top):
+            seq_ = l_
+    if seq_ is None:
+        raise AnchorMissing("race(): the isinstance tests over the reply do not form one dispatch in one statement list")
+    top.sort(key=lambda t_: [s_ is t_ for s_ in seq_].index(True))
+    try:
+        out = _decide(seq_[seq_.index(top[0]):], lambda n, env: (False if isinst(n) is not None and isinst(n)[1] else None), {})
+        ok = out.kind == "raise"
+        ends = [n for n in arms.values() if not any(x is m_ for x in n.orelse for m_ in arms.values())]  # the test(s) that close the dispatch: location of the obligation
+        chk.ob("O9.7", "race(): unexpected reply raises", ok, ends[-1] if ends else top[0], "default arm ends in raise" if ok else f"for a reply of no known class the dispatch ends in `{out.text()}`, not in raise")
+    except (_Uns, UnknownAtom) as e:
+        chk.unknown("O9.7", f"race(): reply dispatch is not a decision over isinstance tests: {e}", top[0])
     # success log only under Success
     for n in walk_body(race_fn):
         if isinstance(n, ast.Call) and is_logging_call(n) and n.args and isinstance(n.args[0], ast.Constant) and "success" in str(n.args[0].value).lower():
-            gs = guards(n)
-            ok = any(pol and isinstance(t, ast.Call) and dotted(t.func) == "isinstance" and last_attr(t.args[1]) == "Success" for t, pol in gs)
+            ok = any(isinst(t) == ("Success", True) for t in pat.fact_nodes(n))
             chk.ob("O9.7", "race(): success is logged only for a Success reply", ok, n, short(n, 70))
 
     # ---- O9.8 advisory: forward first ---------------------------------------------------------------
@@ -606,7 +689,7 @@ def run(chk):
             if not sends:
                 continue
             first = min(s.lineno for s in sends)
-            pre = [n for n in walk_body(f) if isinstance(n, ast.Call) and n.lineno < first and not is_logging_call(n)
+            pre = [n for n in walk_body(f) if isinstance(n, ast.Call) and n.lineno < first and not _log_noise(n)
                    and last_attr(n.func) not in ("str", "isinstance", "BenchmarkFailure", "getattr")]
             if pre:
                 chk.adv("O9.8", f"{a.name}.{hname}: may-raise call(s) {[short(p, 40) for p in pre]} precede the forwarding send in an unguarded handler", f)
@@ -669,4 +752,39 @@ VARIANTS = [
       "        if self.cancelled or self.error:\n            self.logger.info(\"Suppressing output of summary report. Cancelled = [%r], Error = [%r].\", self.cancelled, self.error)\n        else:\n            final_results = metrics.calculate_results(self.metrics_store, self.race)\n            self.race.add_results(final_results)\n            self.race_store.store_race(self.race)\n            metrics.results_store(self.cfg).store_results(self.race)\n            reporter.summarize(final_results, self.cfg)"),
     V("rename worker parent attribute consistently", "keep", _D, "self.task_preparation_actor", "self.parent_actor", count=9),
     V("extra logging before forward", "keep", _M, "    def receiveMsg_BenchmarkFailure(self, msg, sender):\n        self.send(self.race_control, msg)", "    def receiveMsg_BenchmarkFailure(self, msg, sender):\n        self.logger.error('forwarding failure')\n        self.send(self.race_control, msg)"),
+    # role / polarity robustness (hardening pass): the same decision written another way stays silent, the opposite decision is still reported
+    V("tabled wake-up handler: single-armed != test", "keep", _M, "        if msg.payload == MechanicActor.WAKEUP_RESET_RELATIVE_TIME:\n            self.reset_relative_time()\n        else:\n            raise exceptions.RallyAssertionError(f\"Unknown wakeup reason [{msg.payload}]\")",
+      "        if MechanicActor.WAKEUP_RESET_RELATIVE_TIME != msg.payload:\n            raise exceptions.RallyAssertionError(f\"Unknown wakeup reason [{msg.payload}]\")\n        self.reset_relative_time()"),
+    V("tabled wake-up handler: raise in the else of an unrelated test", "break", _M, "        if msg.payload == MechanicActor.WAKEUP_RESET_RELATIVE_TIME:\n            self.reset_relative_time()\n        else:\n            raise exceptions.RallyAssertionError(f\"Unknown wakeup reason [{msg.payload}]\")",
+      "        if msg.payload == MechanicActor.WAKEUP_RESET_RELATIVE_TIME:\n            self.reset_relative_time()\n        if self.cfg:\n            pass\n        else:\n            raise exceptions.RallyAssertionError(f\"Unknown wakeup reason [{msg.payload}]\")", "O9.2"),
+    V("worker sends the failure when the future has NO exception", "break", _D, "                if e:\n                    self.logger.exception(\n                        \"Worker[%s] has detected a benchmark failure. Notifying master...\"",
+      "                if e is None:\n                    self.logger.exception(\n                        \"Worker[%s] has detected a benchmark failure. Notifying master...\"", "O9.5"),
+    V("race(): failure arm before the cancelled arm", "keep", _R, "        elif isinstance(result, actor.BenchmarkCancelled):\n            logger.info(\"User has cancelled the benchmark (detected by actor).\")\n        elif isinstance(result, actor.BenchmarkFailure):\n            logger.error(\"A benchmark failure has occurred\")\n            raise exceptions.RallyError(result.message, result.cause)\n",
+      "        elif isinstance(result, actor.BenchmarkFailure):\n            logger.error(\"A benchmark failure has occurred\")\n            raise exceptions.RallyError(result.message, result.cause)\n        elif isinstance(result, actor.BenchmarkCancelled):\n            logger.info(\"User has cancelled the benchmark (detected by actor).\")\n"),
+    V("race(): cancel told to a local that is not an actor address", "break", _R, "    try:\n        result = actor_system.ask(benchmark_actor, Setup(", "    benchmark_actor = cfg\n    try:\n        result = actor_system.ask(benchmark_actor, Setup(", "O9.4"),
+    V("executor's on_error passed by keyword", "keep", _D, "self.cancel, self.complete, task.error_behavior(self.abort_on_error)\n", "self.cancel, self.complete, on_error=task.error_behavior(self.abort_on_error)\n"),
+    V("executor's on_error taken from another object than its task", "break", _D, "self.cancel, self.complete, task.error_behavior(self.abort_on_error)\n", "self.cancel, self.complete, task_allocation.error_behavior(self.abort_on_error)\n", "O9.9"),
+    V("error_behavior: one merged, flipped condition", "keep", "esrally/track/track.py", "        if default_error_behavior == \"abort\":\n            if self.ignore_response_error_level != \"non-fatal\":\n                behavior = \"abort\"",
+      "        if \"non-fatal\" != self.ignore_response_error_level and \"abort\" == default_error_behavior:\n            behavior = \"abort\""),
+    V("error_behavior: merged condition with or", "break", "esrally/track/track.py", "        if default_error_behavior == \"abort\":\n            if self.ignore_response_error_level != \"non-fatal\":\n                behavior = \"abort\"",
+      "        if \"non-fatal\" != self.ignore_response_error_level or \"abort\" == default_error_behavior:\n            behavior = \"abort\"", "O9.9"),
+    V("request loop: logging first, break in the else arm of the negated test", "keep", _D, "                if self.cancel.is_set():\n                    self.logger.info(\"User cancelled execution.\")\n                    break",
+      "                self.logger.debug('next')\n                if not self.cancel.is_set():\n                    pass\n                else:\n                    self.logger.info(\"User cancelled execution.\")\n                    break"),
+    V("request loop breaks when NOT cancelled", "break", _D, "                if self.cancel.is_set():\n                    self.logger.info(\"User cancelled execution.\")\n                    break",
+      "                if not self.cancel.is_set():\n                    self.logger.info(\"User cancelled execution.\")\n                    break", "O9.9"),
+    V("exit request: De Morgan, cancel set in the else arm", "keep", _D, "        if self.executor_future is not None and self.executor_future.running():\n            self.cancel.set()",
+      "        if self.executor_future is None or not self.executor_future.running():\n            pass\n        else:\n            self.cancel.set()"),
+    V("exit request sets the cancel event only when the executor does NOT run", "break", _D, "        if self.executor_future is not None and self.executor_future.running():\n            self.cancel.set()",
+      "        if self.executor_future is not None and not self.executor_future.running():\n            self.cancel.set()", "O9.9"),
+    V("metrics store close logs through logging.getLogger first", "keep", "esrally/metrics.py", "        self.logger.info(\"Closing metrics store.\")\n        self.opened = False", "        logging.getLogger(__name__).info(\"Closing metrics store.\")\n        self.opened = False"),
+    V("metrics store close: fallible call inside the logging arguments before the flag is cleared", "break", "esrally/metrics.py", "        self.logger.info(\"Closing metrics store.\")\n        self.opened = False",
+      "        self.logger.info(\"Closing metrics store %s.\", self.flush())\n        self.opened = False", "O9.3"),
+    V("worker wake-up: `if e is None: ...; return` first, failure report after it", "keep", _D,
+      "                if e:\n                    self.logger.exception(\n                        \"Worker[%s] has detected a benchmark failure. Notifying master...\", str(self.worker_id), exc_info=e\n                    )\n"
+      "                    # the exception might be user-defined and not be on the load path of the master driver. Hence, it cannot be\n                    # deserialized on the receiver so we convert it here to a plain string.\n"
+      "                    self.send(self.driver_actor, actor.BenchmarkFailure(f\"Error in load generator [{self.worker_id}]\", str(e)))\n                else:\n"
+      "                    self.logger.debug(\"Worker[%s] is ready for the next task.\", str(self.worker_id))\n                    self.executor_future = None\n                    self.drive()\n",
+      "                if e is None:\n                    self.logger.debug(\"Worker[%s] is ready for the next task.\", str(self.worker_id))\n                    self.executor_future = None\n                    self.drive()\n                    return\n"
+      "                self.logger.exception(\"Worker[%s] has detected a benchmark failure. Notifying master...\", str(self.worker_id), exc_info=e)\n"
+      "                self.send(self.driver_actor, actor.BenchmarkFailure(f\"Error in load generator [{self.worker_id}]\", str(e)))\n"),
 ]
